@@ -3,7 +3,7 @@ tree, run it, run TLC on the recorded traces, collect verdicts, write evidence.
 
 Exit codes of a check: 0 conforming, 1 VIOLATION (reproduced on the real code),
 2 infrastructure trouble (never a verdict)."""
-import json, os, shutil, subprocess, sys, time, hashlib, random, tempfile, concurrent.futures as cf
+import re, json, os, shutil, subprocess, sys, time, hashlib, random, tempfile, concurrent.futures as cf
 
 VERIF = os.path.dirname(os.path.dirname(os.path.abspath(__file__)))
 REPO = os.environ.get("VERIF_REPO", "/repo")
@@ -224,6 +224,22 @@ def _tlc_trace_one(module, tag, nshards, timeout, constants, groups):
         shutil.rmtree(d, ignore_errors=True)
 
 
+def coverage_report(text):
+    """TLC -coverage 1 output: actions with their (distinct : generated) counts and expressions never evaluated"""
+    acts, zero = [], []
+    for line in text.splitlines():
+        t = line.strip()
+        m = re.match(r"^<(\w+) line (\d+), col \d+ to line \d+, col \d+ of module (\w+)(?: \((\d+) [\d ]+\))?>: (\d+):(\d+)", t)
+        if m:
+            name = m.group(1) + ("@line%s" % m.group(4) if m.group(4) else "")
+            acts.append({"action": name, "module": m.group(3), "distinct": int(m.group(5)), "generated": int(m.group(6))})
+            continue
+        m = re.match(r"^\|*line (\d+), col (\d+) to line (\d+), col (\d+) of module (\w+): 0$", t)
+        if m:
+            zero.append("%s:%s.%s-%s.%s" % (m.group(5), m.group(1), m.group(2), m.group(3), m.group(4)))
+    return {"actions": acts, "never_evaluated": sorted(set(zero))[:40], "never_taken_actions": [a["action"] for a in acts if a["generated"] == 0]}
+
+
 def tlc_mc(module, cfgname, tag, workers=NCPU, timeout=1800, extra=()):
     """Model-check spec/mc/<cfgname>.cfg. Returns stats; raises Infra on any
     error (a violated invariant of the *specification* is a broken oracle, not
@@ -239,7 +255,10 @@ def tlc_mc(module, cfgname, tag, workers=NCPU, timeout=1800, extra=()):
             raise Infra("TLC timeout model checking " + cfgname)
         if r.returncode != 0 or "No error has been found" not in r.stdout:
             raise Infra("model checking %s failed (%d):\n%s" % (cfgname, r.returncode, r.stdout[-3000:]))
-        return parse_tlc_stats(r.stdout), r.stdout
+        st = parse_tlc_stats(r.stdout)
+        if "-coverage" in extra:
+            st["coverage"] = coverage_report(r.stdout)
+        return st, r.stdout
     finally:
         shutil.rmtree(d, ignore_errors=True)
 
